@@ -318,16 +318,25 @@ func TestVerifC04(t *testing.T) {
 		nConc = v
 	}
 	concRounds, concOverlaps, concCalls := 0, 0, 0
-	for idx := 0; idx < n+nExh+nConc; idx++ {
+	// shapes stream (the last nShp cases), exhaustive in both tiers: gang 0 is declared on every path (PodGroup /
+	// pod annotations / lightweight labels) x every shape of the groups annotation (absent, "", null, [], [self],
+	// [other, self], not JSON) x min 1..3 x 5 policy tokens x 2 modes; gang 1 (min 1) is in its group only for the
+	// [other, self] shape.  All members arrive, then each goes through Permit in turn, then bind / roll-back.
+	nShp := 3 * 7 * 3 * 5 * 2
+	if vEnvInt("VERIF_C04_NOEXH", 0) != 0 {
+		nShp = 0
+	}
+	for idx := 0; idx < n+nExh+nConc+nShp; idx++ {
 		r := h.Begin(idx)
 		if r == nil {
 			continue
 		}
 		exh := idx >= n && idx < n+nExh
-		conc := idx >= n+nExh
+		conc := idx >= n+nExh && idx < n+nExh+nConc
+		shp := idx >= n+nExh+nConc
 		// ---------- the case's universe ----------
 		nG := r.Range(1, 3)
-		if exh {
+		if exh || shp {
 			nG = 2
 		}
 		// partition of the gangs into gang groups
@@ -356,8 +365,8 @@ func TestVerifC04(t *testing.T) {
 		emptyShape := func() int { return []int{0, 0, 1, 2, 3, 3, 5}[r.Intn(7)] }
 		// late linking: the PodGroups are created without a groups annotation and linked into one gang group by a later
 		// annotation-only update;  others-only: gang 0 names only gang 1, gang 1 is a group of its own
-		lateLink := !exh && nG > 1 && len(groupOf[0]) > 1 && r.Chance(1, 6)
-		othersOnly := !exh && !lateLink && nG > 1 && r.Chance(1, 30)
+		lateLink := !exh && !shp && nG > 1 && len(groupOf[0]) > 1 && r.Chance(1, 6)
+		othersOnly := !exh && !shp && !lateLink && nG > 1 && r.Chance(1, 30)
 		for g := 0; g < nG; g++ {
 			c := c04Cfg{min: r.Range(1, 3), pol: r.Intn(4), mode: 1, gshape: 4}
 			if r.Chance(1, 12) {
@@ -418,6 +427,33 @@ func TestVerifC04(t *testing.T) {
 			}
 			pods = []*c04PodSt{{id: 0, g: 0}, {id: 10, g: 1}}
 			h.Tag("exhaustive")
+		}
+		if shp {
+			code := idx - (n + nExh + nConc)
+			path := code % 3
+			code /= 3
+			sv := code % 7
+			code /= 7
+			mn := 1 + code%3
+			code /= 3
+			pol := code % 5
+			code /= 5
+			mode := code % 2
+			shape, grp, g1grp := sv, []int(nil), []int{1}
+			switch sv {
+			case 4:
+				grp = []int{0}
+			case 6:
+				shape, grp, g1grp = 4, []int{1, 0}, []int{0, 1}
+			}
+			cfgs[0], ways[0] = c04Cfg{min: mn, pol: pol, mode: mode, gshape: shape, group: grp}, path
+			cfgs[1], ways[1] = c04Cfg{min: 1, pol: pol, mode: 1, gshape: 4, group: g1grp}, 0
+			pods = nil
+			for i := 0; i < mn; i++ {
+				pods = append(pods, &c04PodSt{id: i, g: 0})
+			}
+			pods = append(pods, &c04PodSt{id: 10, g: 1})
+			h.Tag("shapes-exhaustive")
 		}
 		h.Tag(fmt.Sprintf("gangs:%d", nG))
 
@@ -642,7 +678,7 @@ func TestVerifC04(t *testing.T) {
 			way := ways[ps.g]
 			c := cfgs[ps.g]
 			minOK := 1
-			if way != 0 {
+			if way != 0 && !shp {
 				if r.Chance(1, 10) {
 					minOK = r.Intn(2) * 2 // 0 illegal, 2 missing
 				}
@@ -897,6 +933,27 @@ func TestVerifC04(t *testing.T) {
 		scripted := r.Chance(1, 2) // half of the histories start with "everything arrives, then members are scheduled"
 		if conc {
 			nOps, scripted = r.Range(0, 8), true
+		}
+		if shp {
+			nOps, scripted = 0, false
+			doPGAdd(1, false)
+			if ways[0] == 0 {
+				doPGAdd(0, false)
+			}
+			for _, ps := range pods {
+				doPodEvt(ps, false, false, false)
+			}
+			for _, ps := range pods {
+				doPermit(ps)
+			}
+			for _, ps := range pods {
+				switch ps.flight {
+				case 2:
+					doPostBind(ps)
+				case 1, 3:
+					doUnreserve(ps)
+				}
+			}
 		}
 		if exh {
 			nOps, scripted = 0, false
@@ -1417,8 +1474,22 @@ func TestVerifC04(t *testing.T) {
 					if d.verdict != 0 {
 						continue
 					}
-					// (b) all, not some (the waiting map belongs to the scheduling goroutine)
+					// (b) all, not some (the waiting map belongs to the scheduling goroutine).  Not demanded when the pod's own
+					// annotation gang may have been dropped by a racing delete of its last member between Permit's return
+					// and AllowGangGroup's second lookup (the plugin then releases nobody; the deleted pod's cycle fails later).
+					ownGangRaced := false
+					for _, e := range all {
+						if e.kind == "del" && e.g == d.g && e.seq > d.seq0 && ways[d.g] != 0 {
+							ownGangRaced = true
+						}
+					}
+					if ownGangRaced {
+						h.Tag("conc:release own gang raced by delete")
+					}
 					for q, gq := range d.fwBefore {
+						if ownGangRaced {
+							break
+						}
 						if c04Has(cfgs[d.g].declaredGroup(d.g), gq) && !c04Has(d.allowed, q) {
 							fail("C04:waiting-member-not-released", "pod %d succeeded at Permit but waiting member %d of gang %d stays parked", d.p, q, gq)
 						}
@@ -1483,6 +1554,7 @@ func TestVerifC04(t *testing.T) {
 		"1-4 pods each, 3 match policies x 2 modes (+absent/illegal values), PodGroup / annotation / lightweight-label gangs; " +
 		"non-trivial = at least two members released from Permit or at least one strict-mode group rejection that hit a waiting pod; " +
 		fmt.Sprintf("plus an exhaustive stream: all 14^%d call sequences after a fixed arrival prefix on 2 gangs x 1 pod for %d (policy, mode) pairs; ", exhLen, len(exhCfgs))+
+		fmt.Sprintf("plus %d cases exhausting path x groups-annotation shape x min x policy x mode for one gang (+ a partner gang); ", nShp)+
 		fmt.Sprintf("plus a concurrency stream of %d cases: after a sequential prefix an informer goroutine (pod add / update / delete, repeated) races a scheduling goroutine "+
 			"(Permit / Unreserve / PostBind in protocol order) on the same pods for 6-20 rounds, oracle at every barrier; non-trivial there = a round in which calls of the two goroutines overlapped in time", nConc))
 }
